@@ -49,6 +49,7 @@ struct HC {
     bool equal(const long& a, const long& b) const { return a == b; }
 };
 
+static std::atomic<int> g_touch{0};   // dummy shared word: an access to it is a scheduling point inside an accessor-holding interval
 static std::string g_err;        // first monitor violation of the current run
 static void violation(const std::string& s) { if (g_err.empty()) g_err = s; }
 
@@ -127,7 +128,7 @@ static Snap take_snap(Map& m) {
 // ---------------------------------------------------------------------------------------------------------------
 // one run
 // ---------------------------------------------------------------------------------------------------------------
-struct Hist { int tid; std::string op; long key; int res; long val; size_t inv, resp; };
+struct Hist { int tid; std::string op; long key; int res; long val; size_t inv, resp; long gen; };
 
 static std::ptrdiff_t g_val_off = 0;     // offset of the mapped value inside a node
 
@@ -139,7 +140,60 @@ struct RunOut {
 static const char* op_names[] = {"i", "ir", "iw", "p", "pr", "pw", "fr", "fw", "c", "e", "x", "r"};
 static int op_code(const std::string& k) { for (int i = 0; i < 12; ++i) if (k == op_names[i]) return i; return -1; }
 
-static bool run_once(verif::Schedule& sch, int run_idx, bool print) {
+static std::vector<std::vector<long>> g_xgen;      // per thread, per completed non-release op: generation targeted by `x`, else -1
+
+// ---------------------------------------------------------------------------------------------------------------
+// per-key linearizability of the completed-operation history against the sequential map (Wing-Gong search; the state of
+// a key is the generation number of its element, -1 if absent), including the initial and the final contents
+// ---------------------------------------------------------------------------------------------------------------
+struct LOp { int kind; int res; long val; long gen; size_t inv, resp; bool acc; };   // kind 0 ins 1 find 2 count 3 erase 4 exclude
+static bool lin_apply(const LOp& o, long& st) {
+    switch (o.kind) {
+    case 0: if (o.res) { if (st != -1) return false; st = o.gen; return !o.acc || o.val == o.gen; }
+            return st != -1 && (!o.acc || o.val == st);
+    case 1: return o.res ? (st != -1 && o.val == st) : st == -1;
+    case 2: return (o.res != 0) == (st != -1);
+    case 3: if (o.res) { if (st == -1) return false; st = -1; return true; } return st == -1;
+    case 4: if (o.res) { if (st != o.gen) return false; st = -1; return true; } return st != o.gen;
+    }
+    return false;
+}
+static bool lin_search(const std::vector<LOp>& ops, unsigned done, long st, long fin, std::set<std::pair<unsigned, long>>& seen) {
+    if (done == (1u << ops.size()) - 1) return st == fin;
+    if (!seen.insert({done, st}).second) return false;
+    size_t minresp = (size_t)-1;
+    for (size_t i = 0; i < ops.size(); ++i) if (!(done >> i & 1)) minresp = std::min(minresp, ops[i].resp);
+    for (size_t i = 0; i < ops.size(); ++i) {
+        if (done >> i & 1) continue;
+        if (ops[i].inv > minresp) continue;               // some other pending op finished before this one began
+        long s2 = st;
+        if (lin_apply(ops[i], s2) && lin_search(ops, done | (1u << i), s2, fin, seen)) return true;
+    }
+    return false;
+}
+
+// ---------------------------------------------------------------------------------------------------------------
+// crash reporting: the schedule taken so far is printed when the code under test faults (e.g. a bucket of a segment
+// that is not allocated is dereferenced)
+// ---------------------------------------------------------------------------------------------------------------
+struct Recording : verif::Schedule {
+    verif::Schedule& inner; std::vector<int> picks;
+    explicit Recording(verif::Schedule& s) : inner(s) {}
+    int pick(int cur, const std::vector<int>& en, size_t step) override { int r = inner.pick(cur, en, step); picks.push_back(r); return r; }
+};
+static Recording* g_rec = nullptr;
+static int g_run_idx = 0;
+static void crash_handler(int sig) {
+    printf("run %d\nmon VIOLATION crash: signal %d inside the code under test\nsched", g_run_idx, sig);
+    if (g_rec) for (int s : g_rec->picks) printf(" %d", s);
+    printf("\nend\nsummary runs=%d bad=1\n", g_run_idx + 1);
+    fflush(stdout);
+    _exit(4);
+}
+
+static bool run_once(verif::Schedule& sch0, int run_idx, bool print) {
+    Recording sch(sch0); g_rec = &sch; g_run_idx = run_idx;
+    g_xgen.assign(g_progs.size(), {});
     g_err.clear();
     g_snaps.clear();
     Map* mp = new Map();
@@ -156,6 +210,7 @@ static bool run_once(verif::Schedule& sch, int run_idx, bool print) {
     for (size_t t = 0; t < T; ++t) bodies.push_back([&, t] {
         Map::accessor wa; Map::const_accessor ra;
         int held = 0;                      // 0 none, 1 const_accessor, 2 accessor
+        long held_key = 0, held_gen = 0;
         int opi = 0;
         auto cur_val = [&]() -> const Val& { return held == 2 ? wa->second : ra->second; };
         auto ghost_check = [&] {
@@ -168,6 +223,7 @@ static bool run_once(verif::Schedule& sch, int run_idx, bool print) {
         auto ghost_acquire = [&](int kind) {
             held = kind;
             const Val& v = cur_val();
+            held_key = held == 2 ? wa->first : ra->first; held_gen = v.v;
             if (v.magic != MAGIC) { violation("accessor acquired on a destroyed element"); return; }
             if (kind == 2) { if (v.writers || v.readers) violation("accessor acquired while the element is held (writers=" + std::to_string(v.writers) + ",readers=" + std::to_string(v.readers) + ")"); v.writers++; }
             else { if (v.writers) violation("const_accessor acquired while an accessor holds the element"); v.readers++; }
@@ -180,6 +236,7 @@ static bool run_once(verif::Schedule& sch, int run_idx, bool print) {
         auto do_release = [&] {
             eff[t].push_back("r");
             verif::note("begin", 11, 0);
+            g_touch.load(std::memory_order_relaxed);
             ghost_check(); ghost_release();
             if (held == 2) wa.release(); else ra.release();
             held = 0;
@@ -192,10 +249,12 @@ static bool run_once(verif::Schedule& sch, int run_idx, bool print) {
             if (needs_slot(k) && held) do_release();
             ghost_check();
             if (k == "r") { do_release(); continue; }
-            long val = 100 * (long)(t + 1) + opi;
-            eff[t].push_back(k == "x" ? k : k + ":" + std::to_string(op.key));
-            verif::note("begin", (u64)op_code(k), (u64)op.key);
-            bool res = false; long rv = 0;
+            long val = 1000000 + 100 * (long)(t + 1) + opi;
+            bool has_val = k[0] == 'i' || k[0] == 'p';
+            eff[t].push_back(k == "x" ? k : k + ":" + std::to_string(op.key) + ":" + std::to_string(has_val ? val : 0));
+            verif::note("begin", (u64)op_code(k), (u64)(k == "x" ? held_key : op.key));
+            verif::note("gen", (u64)val, 0);
+            bool res = false; long rv = k == "x" ? held_gen : 0;
             if (k == "i") res = m.insert(std::make_pair(op.key, Val(val)));
             else if (k == "ir") { res = m.insert(ra, std::make_pair(op.key, Val(val))); ghost_acquire(1); rv = ra->second.v; }
             else if (k == "iw") { res = m.insert(wa, std::make_pair(op.key, Val(val))); ghost_acquire(2); rv = wa->second.v; }
@@ -207,18 +266,23 @@ static bool run_once(verif::Schedule& sch, int run_idx, bool print) {
             else if (k == "c") res = m.count(op.key) != 0;
             else if (k == "e") res = m.erase(op.key);
             else if (k == "x") {
-                ghost_release();
+                g_touch.load(std::memory_order_relaxed);
+                ghost_check(); ghost_release();
                 int was = held; held = 0;
                 res = (was == 2) ? m.erase(wa) : m.erase(ra);
             }
             g_snaps.push_back(take_snap(m));
             verif::note("snap", g_snaps.size() - 1, 0);
-            verif::note("end", res ? 1 : 0, (u64)rv);
+            verif::note("end", res ? 1 : 0, (u64)(k == "x" ? 0 : rv));
+            g_xgen[t].push_back(k == "x" ? held_gen : -1);
+            if (held) { g_touch.load(std::memory_order_relaxed); ghost_check(); }     // use the element while holding the accessor
         }
         if (held) do_release();
     });
     verif::clear_names();
+    if (auto* d = dynamic_cast<verif::DfsSchedule*>(&sch0)) { d->pos = 0; d->preempts = 0; }
     verif::Result r = verif::run(bodies, sch);
+    g_rec = nullptr;
 
     // ---- translate the atomic-access log into critical-section-level events -------------------------------------
     std::vector<std::string> out;
@@ -262,8 +326,9 @@ static bool run_once(verif::Schedule& sch, int run_idx, bool print) {
         if (e.kind == verif::K_NOTE) {
             std::string tag = e.tag ? e.tag : "";
             if (tag == "begin") {
-                open[t] = Hist{t, op_names[e.a], (long)e.b, 0, 0, i, 0}; in_op[t] = true;
+                open[t] = Hist{t, op_names[e.a], (long)e.b, 0, 0, i, 0, 0}; in_op[t] = true;
                 snprintf(buf, sizeof buf, "begin %s %ld", op_names[e.a], (long)e.b); emit(t, buf);
+            } else if (tag == "gen") { open[t].gen = (long)e.a;
             } else if (tag == "end") {
                 open[t].res = (int)e.a; open[t].val = (long)e.b; open[t].resp = i; hist.push_back(open[t]); in_op[t] = false;
                 snprintf(buf, sizeof buf, "end %d %ld", (int)e.a, (long)e.b); emit(t, buf);
@@ -347,6 +412,7 @@ static bool run_once(verif::Schedule& sch, int run_idx, bool print) {
         case V_BLIST:
             if (e.kind == verif::K_LOAD) emit(t, "ldl " + std::to_string(idx) + (e.a == 3 ? " 1" : " 0"));
             else if (e.kind == verif::K_STORE) {
+                if (e.a == 0 && e.b == 3) emit(t, "stl " + std::to_string(idx));      // "mark rehashed"
                 if (pending_link[t] >= 0 && Map::base_type::is_valid((void*)(uintptr_t)e.a) && !node_id.count((const void*)(uintptr_t)e.a)) {
                     reg_node((const void*)(uintptr_t)e.a, pending_link[t]); pending_link[t] = -1;
                 }
@@ -370,6 +436,33 @@ static bool run_once(verif::Schedule& sch, int run_idx, bool print) {
         }
         fin = "final " + std::to_string(m.size());
         for (auto& kv : content) fin += " " + std::to_string(kv.first) + ":" + std::to_string(kv.second);
+        // per-key linearizability (initial contents = pre-population, final contents = what the table holds now)
+        std::map<long, std::vector<LOp>> per_key;
+        std::map<long, long> initial;
+        for (long k : g_pre) if (!initial.count(k)) initial[k] = k;
+        std::vector<size_t> seen_ops(T, 0);
+        for (auto& h : hist) {
+            if (h.op == "r") continue;
+            int kind = h.op[0] == 'i' || h.op[0] == 'p' ? 0 : h.op[0] == 'f' ? 1 : h.op == "c" ? 2 : h.op == "e" ? 3 : 4;
+            long xg = g_xgen[h.tid][seen_ops[h.tid]++];
+            LOp o{kind, h.res, h.val, kind == 0 ? h.gen : xg, h.inv, h.resp, h.op.size() > 1};
+            per_key[h.key].push_back(o);
+        }
+        for (auto& kv : initial) per_key[kv.first];
+        for (auto& kv : content) per_key[kv.first];
+        for (auto& pk : per_key) {
+            long st0 = initial.count(pk.first) ? initial[pk.first] : -1;
+            long fin_st = content.count(pk.first) ? content[pk.first] : -1;
+            std::set<std::pair<unsigned, long>> seen;
+            if (pk.second.size() > 24) continue;
+            if (!lin_search(pk.second, 0, st0, fin_st, seen)) {
+                std::string d = "history of key " + std::to_string(pk.first) + " is not linearizable (initially " + (st0 < 0 ? "absent" : "present") + ", finally " + (fin_st < 0 ? "absent" : "present") + "):";
+                static const char* kn[] = {"insert", "find", "count", "erase", "erase(accessor)"};
+                for (auto& o : pk.second) d += std::string(" ") + kn[o.kind] + "=" + std::to_string(o.res) + "@[" + std::to_string(o.inv) + "," + std::to_string(o.resp) + "]";
+                violation(d);
+                break;
+            }
+        }
         ok = g_err.empty();
     }
     if (print || !ok) {
@@ -393,6 +486,7 @@ static bool run_once(verif::Schedule& sch, int run_idx, bool print) {
 int main(int argc, char** argv) {
     if (argc < 3) return 2;
     setvbuf(stdout, nullptr, _IOFBF, 1 << 20);
+    signal(SIGSEGV, crash_handler); signal(SIGBUS, crash_handler); signal(SIGABRT, crash_handler); signal(SIGFPE, crash_handler);
     {   // offset of the mapped value inside a node
         Map tmp; Map::accessor a; tmp.insert(a, std::make_pair(1L, Val(1)));
         g_val_off = (const char*)&a->second - (const char*)a.my_node;
